@@ -54,6 +54,7 @@ def main():
         def build(item):
             name, parts = item
             try:
+                parts = [tuple(list(p) + [(), None][len(p) - 2:]) if len(p) < 4 else p for p in parts]
                 return name, core.Module(name, parts, outdir).build(), None
             except core.Inconclusive as e:
                 return name, None, str(e)
